@@ -123,6 +123,30 @@ func genC01(r *hlib.Rng, n int) In {
 	return in
 }
 
+// high leaf indices and 2^k carry boundaries: a synthetic tree of n equal leaves, then real deposits n, n+1, ... across the carry
+func genC01High(r *hlib.Rng) In {
+	ns := []uint32{1, 2, 3, 7, 8, 255, 256, 1<<16 - 1, 1 << 16, 1<<24 - 2, 1<<31 - 1, 1 << 31, 1<<32 - 6, 1<<32 - 3}
+	n := hlib.Pick(r, ns...)
+	if r.Intn(3) == 0 {
+		n = uint32(1)<<uint(1+r.Intn(31)) - uint32(r.Intn(3))
+	}
+	in := In{Prop: "c01"}
+	in.Ops = append(in.Ops, Op{K: "prestate", Num: 1, N: n, X: hlib.Hex(r.Bytes(32))})
+	h := &hist{r: r, kinds: []string{"claim"}, pBridg: 90, num: 1, dc: n}
+	cnt := 2 + r.Intn(3)
+	for i := 0; i < cnt; i++ {
+		if uint64(h.dc)+4 >= 1<<32 {
+			break
+		}
+		in.Ops = append(in.Ops, h.block(2))
+		if r.Intn(3) == 0 {
+			in.Ops = append(in.Ops, Op{K: "restart"})
+		}
+	}
+	in.Ops = append(in.Ops, snapOp())
+	return in
+}
+
 func genC08(r *hlib.Rng, n int) In {
 	h := &hist{r: r, kinds: []string{"claim"}, pBridg: 90}
 	in := In{Prop: "c08", Proofs: "all"}
@@ -409,7 +433,11 @@ func generate(prop string, f *hlib.Flags) []In {
 	for i := 0; i < f.N; i++ {
 		switch prop {
 		case "c01":
-			ins = append(ins, genC01(r, 3+r.Intn(12)))
+			if i%4 == 3 {
+				ins = append(ins, genC01High(r))
+			} else {
+				ins = append(ins, genC01(r, 3+r.Intn(12)))
+			}
 		case "c08":
 			ins = append(ins, genC08(r, 4+r.Intn(8)))
 		case "c04":
